@@ -131,7 +131,7 @@ class ModuleAstInfo:
             iter(
                 scope
                 for scope in nodes_of_class(self.module_ast, SCOPE_CLASSES)
-                if scope_line_range(scope)[0] == lineno
+                if self._first_line(scope) == lineno
             ),
             None,
         )
@@ -140,6 +140,23 @@ class ModuleAstInfo:
             return None
 
         return AstInfo(ast=cast("ScopeNode", ast_scope), module=self)
+
+    @staticmethod
+    def _first_line(scope: ast.AST) -> int:
+        """Get the first line of a scope as its code object reports it.
+
+        The first line of the code object of a decorated function or class is the line
+        of its first decorator, not the line of the ``def``/``class`` keyword.
+
+        Args:
+            scope: The AST node of the scope.
+
+        Returns:
+            The first line of the scope, including its decorators.
+        """
+        start = scope_line_range(scope)[0]
+        decorators = getattr(scope, "decorator_list", ())
+        return min([start, *(decorator.lineno for decorator in decorators)])
 
     @classmethod
     def _find_lines_in_source_code(
